@@ -146,12 +146,14 @@ MLayoutTab == <<
 MRank(e) == ((IndexOf(MLocOrder, e.loc) - 1) * 2 + IndexOf(MSecOrder, e.sec) - 1) * Len(MKeyOrder) + IndexOf(MKeyOrder, e.k)
 MEntry == [loc : MLocs, sec : Secs, k : Keys, f : MForms \cup {"none"}]
 
-Refs(f) == CASE f = "P" -> {"ver"} [] f = "PRE" -> {"rev"} [] f = "SUF" -> {"rev"} [] f = "TWO" -> {"a", "b"} [] OTHER -> {}
+Refs(f) == CASE f = "P" -> {"ver"} [] f = "PRE" -> {"rev"} [] f = "SUF" -> {"rev"} [] f = "MID" -> {"rev"} [] f = "TWO" -> {"a", "b"} [] OTHER -> {}
 RawOf(f) == CASE f = "lit" -> "1.0" [] f = "rng" -> "[1.0,2.0)" [] f = "P" -> "${ver}" [] f = "PRE" -> "1.${rev}"
-              [] f = "SUF" -> "${rev}-jre" [] f = "TWO" -> "${a}.${b}" [] OTHER -> ""
+              [] f = "SUF" -> "${rev}-jre" [] f = "MID" -> "1.${rev}.0" [] f = "TWO" -> "${a}.${b}" [] OTHER -> ""
 \* the new versions explored per form, and the property assignment that produces them (if any)
 Tos(f) == CASE f = "lit" -> {"2.0", "2.0-a&b<c"} [] f = "rng" -> {"[2.0,3.0)"} [] f = "P" -> {"2.0"}
-            [] f = "PRE" -> {"1.5", "2"} [] f = "SUF" -> {"7-jre", "2"} [] f = "TWO" -> {"2.3", "2"} [] OTHER -> {}
+            [] f = "PRE" -> {"1.5", "2"} [] f = "SUF" -> {"7-jre", "2"} [] f = "TWO" -> {"2.3", "2"}
+            [] f = "MID" -> {"1.5.0", "1.0", "2"}      \* "1.0": literal prefix "1." and suffix ".0" overlap in the new version
+            [] OTHER -> {}
 \* Sol(f, to): the property assignment under which form f reads as "to" (the solution of the equation
 \* f[properties] = to; for ${a}.${b} the split at the first dot), {} if there is none.  Defined for every
 \* explored new version, not only the form's own ones: the as-built writer may match an update against
@@ -159,6 +161,7 @@ Tos(f) == CASE f = "lit" -> {"2.0", "2.0-a&b<c"} [] f = "rng" -> {"[2.0,3.0)"} [
 Sol(f, to) == CASE f = "P" -> {[n |-> "ver", v |-> to]}
                 [] f = "PRE" /\ to = "1.5" -> {[n |-> "rev", v |-> "5"]}
                 [] f = "SUF" /\ to = "7-jre" -> {[n |-> "rev", v |-> "7"]}
+                [] f = "MID" /\ to = "1.5.0" -> {[n |-> "rev", v |-> "5"]}
                 [] f = "TWO" /\ to = "2.3" -> {[n |-> "a", v |-> "2"], [n |-> "b", v |-> "3"]}
                 [] f = "TWO" /\ to = "2.0" -> {[n |-> "a", v |-> "2"], [n |-> "b", v |-> "0"]}
                 [] f = "TWO" /\ to = "1.5" -> {[n |-> "a", v |-> "1"], [n |-> "b", v |-> "5"]}
@@ -211,6 +214,7 @@ EffOwn(E, D, W, i) ==
   ELSE CASE E[i].f = "P" -> Val(W, E[i].loc, "ver", D)
          [] E[i].f = "PRE" -> "1." \o Val(W, E[i].loc, "rev", D)
          [] E[i].f = "SUF" -> Val(W, E[i].loc, "rev", D) \o "-jre"
+         [] E[i].f = "MID" -> "1." \o Val(W, E[i].loc, "rev", D) \o ".0"
          [] E[i].f = "TWO" -> Val(W, E[i].loc, "a", D) \o "." \o Val(W, E[i].loc, "b", D)
          [] OTHER -> W.vt[i]
 Eff(E, D, W, i) == EffOwn(E, D, W, Target(E, i))
